@@ -717,7 +717,8 @@ class Model(core.BfsModel):
         timers = tuple(sorted(round(h._when - w.loop.time(), 3) for h in w.loop._scheduled if not h._cancelled))  # noqa: SLF001
         queue = [(labels.get(p[:22], "other"), tuple(a)) for a, p in tep.send_queue]
         return (settings, tep.tunnel_community is tc, tep.tunnel_community is None, tep.hops,
-                (len(queue), tuple(sorted(set(queue)))), tuple(circuits), tuple(tables), timers, len(w.inflight),
+                (len(queue), tuple(sorted(set(queue))), type(tep.send_queue).__name__, getattr(tep.send_queue, "maxlen", None)),
+                tuple(circuits), tuple(tables), timers, len(w.inflight),
                 tuple(sorted(w.ref.asked.items())), tuple(sorted(w.ref.ever_asked.items())), scalars,
                 tuple(w.inst.get(i) is not None for i in (1, 2, 3)))
 
@@ -833,6 +834,20 @@ class Model(core.BfsModel):
         # no flush: what N hands to its raw socket and to send_data is recorded at the call, nothing has to be delivered
         v.extend(self.judge(w, f"probe (other prefixes declared not anonymous, plain send, one send by every loaded "
                                f"anonymized instance) after {ev!r}"))
+        # a second TunnelEndpoint of the process (another pseudonym's, configured for 3 hops on the same tunnel community):
+        # what it holds back is its own business - this endpoint's queue must not see it
+        from ipv8.messaging.anonymization.endpoint import TunnelEndpoint  # noqa: PLC0415
+        held = list(w.tep.send_queue)
+        other = TunnelEndpoint(w.n.endpoint)
+        foreign = UNKNOWN_PREFIX + b"\x01c07-second-endpoint"
+        other.set_anonymity(UNKNOWN_PREFIX, True)
+        other.set_tunnel_community(w.tc, hops=3)      # no 3-hop circuit exists: the packet is held back
+        other.send(DEST_PLAIN, foreign)
+        if list(w.tep.send_queue) != held or any(p == foreign for _, p in w.tep.send_queue):
+            v.append(("queue-foreign|second-endpoint",
+                      f"[after {ev!r}] a packet that a second TunnelEndpoint of the process (hops=3) had to hold back "
+                      f"turned up in this endpoint's queue (hops={w.tep.hops}): it would be flushed over a circuit of "
+                      f"this endpoint's length"))
         return v
 
 
@@ -949,7 +964,9 @@ def run(ctx: core.Ctx) -> core.Report:
         model = Model(seed, alphabet, max_circuits, fork=True, route=route)
         r = core.bfs(model, depth, ctx.jobs, chunk=4)
         model.drop_cache()
-        self_check(model, r["samples"])
+        if not r["violations"]:
+            # (a violation may be the very reason why two executions of one history differ, e.g. process-wide state)
+            self_check(model, r["samples"])
         total_states += r["states"]
         total_trans += r["transitions"]
         outcomes += r["distinct_outcomes"]
